@@ -22,7 +22,7 @@ class P(Prop):
             "unconnected pins) with outputs unmarked at random so that dead gates, dead chains, unloaded inputs and inputs "
             "loaded only by dead logic occur; both values of `inputs`; non-trivial = at least one node is dead")
     assumptions = ["set-iteration order inside the patched run is the model's ordBy(seed) family"]
-    budget = {"quick": (300, 400), "thorough": (5000, 6000)}
+    budget = {"quick": (600, 800), "thorough": (5000, 6000)}
 
     def gen_case(self):
         rng = self.rng
